@@ -434,6 +434,9 @@ class AbstractDateTime(AnyAtomicType):
 
         if 'microsecond' in kwargs:
             microseconds = match_dict['microsecond']
+            if kwargs.get('hour') == 24 and microseconds.strip('0'):
+                raise ValueError('Invalid datetime string {!r} for {!r} (24:00:00 must be '
+                                 'followed by zeros only)'.format(datetime_string, cls))
             if len(microseconds) != 6:
                 microseconds += '0' * (6 - len(microseconds))
                 kwargs['microsecond'] = int(microseconds[:6])
